@@ -13,7 +13,8 @@ use crate::refmodel::value::RV;
 use crate::rng::Rng;
 use evalexpr::{Context, ContextWithMutableVariables, DefaultNumericTypes, EmptyContext, EmptyContextWithBuiltinFunctions};
 
-pub const OTHERS: [&str; 21] = [
+pub const OTHERS: [&str; 25] = [
+    "math::", "len::", "::", "str::from::",
     "foo", "math::nope", "str", "Typeof", "random", "str::regex_matches", "str::regex_replace",
     // a builtin under another namespace is not a builtin
     "math::floor", "math::round", "math::min", "math::len", "str::len", "sqrt", "trim", "math::math::sqrt", "::len",
